@@ -115,9 +115,15 @@ def run_schedule(progs, schedule, frame=None):
         t.start()
         back.acquire()
     d0 = digest() if frame is not None else None
+    import gc
+    collected = set()
     for i in schedule:
         t = threads[i]
         if t.done:
+            if i not in collected:          # the finished parser and its tokens are freed: addresses get reused
+                collected.add(i)
+                t.join()
+                gc.collect()
             continue
         t.gate.release()
         back.acquire()
